@@ -84,6 +84,45 @@ fn w_plain<const L: usize>() {
     core::mem::forget(s);
     core::mem::forget(e);
 }
+/// One write far larger than anything else in these harnesses (1 MiB + 1 octet, constant
+/// contents), with exactly one unit of credit: still ONE frame carrying all of it, or nothing at
+/// all - a write that is split internally must not leave part of itself queued when it returns
+/// Pending (seed C02c: chunks queued before the credit ran out were sent again on the retry).
+static BIG: [u8; (1 << 20) + 1] = [0x5a; (1 << 20) + 1];
+fn w_plain_big() {
+    let credit: u32 = kani::any();
+    kani::assume(credit <= 1);
+    let (mut s, mut e) = mk_stream(credit, 2, 2, 0, false);
+    let r = cx_poll(|cx| Pin::new(&mut s).poll_write(cx, &BIG[..]));
+    let credit1 = s.psh_send_remaining.raw().load(AO::Relaxed);
+    let m = pop_out_bytes(&mut e.out_rx);
+    match &r {
+        Poll::Ready(Ok(n)) => {
+            vassert!(credit == 1 && credit1 == 0, "P:C03 a Push was sent without consuming exactly one unit of credit");
+            vassert!(*n >= 1 && *n <= BIG.len(), "P:C02 write reported a length it cannot have taken");
+            match &m {
+                Some(b) => {
+                    vassert!(b.len() == 5 + *n, "P:C02 the frame queued by a large write does not carry exactly the bytes the write reported");
+                    vassert!(b[5] == 0x5a && b[b.len() - 1] == 0x5a, "P:C02 payload of a large write modified");
+                }
+                None => vfail!("P:C02 a successful write queued no frame"),
+            }
+            vassert!(pop_out(&mut e.out_rx) == Out::Nothing, "P:C02 one write queued more than one frame");
+            kani::cover!(true, "?large write accepted");
+        }
+        Poll::Ready(Err(_)) => vfail!("P:C05 a write failed although the stream is open"),
+        Poll::Pending => {
+            vassert!(credit == 0, "P:C04 write is pending although credit is available");
+            vassert!(credit1 == 0 && m.is_none(), "P:C02 a write that returned Pending left part of itself queued (it will be sent again when the write is retried)");
+            kani::cover!(true, "?large write pending on credit");
+        }
+    }
+    kani::cover!(true, "large write evaluated");
+    core::mem::forget(m);
+    core::mem::forget(r);
+    core::mem::forget(s);
+    core::mem::forget(e);
+}
 fn w_vectored<const A: usize, const B: usize>(parts: usize) {
     let credit: u32 = kani::any();
     let finish: bool = kani::any();
@@ -636,6 +675,7 @@ macro_rules! h {
 h!(c02_w_plain_l0, 8, w_plain::<0>());
 h!(c02_w_plain_l1, 8, w_plain::<1>());
 h!(c02_w_plain_l3, 8, w_plain::<3>());
+h!(c02_w_plain_big, 8, w_plain_big());
 h!(c02_w_vec_none, 10, w_vectored::<1, 1>(0));
 h!(c02_w_vec_one, 10, w_vectored::<2, 1>(1));
 h!(c02_w_vec_1_2, 10, w_vectored::<1, 2>(2));
